@@ -170,6 +170,8 @@ def shrink(ctx, violation):
 
 def replay(ctx, data):
     r = Result()
+    if "history" in data["input"]:
+        return solvers.replay_inplace(data["input"])
     run_cases(ctx, r, [data["input"]["case"]])
     ok = not r.concrete
     return ok, ("ok: property holds on this input" if ok else "still fails: " + r.concrete[0]["what"])
